@@ -21,6 +21,8 @@ CONTRACT = {
     "re:^bb8::api::Builder::(build|build_unchecked)$": "bb8:build(min_idle<=max_size)",
     "re:^tokio::time::interval::interval": "tokio:interval(period>0)",
     "re:^tokio::runtime::builder::Builder::worker_threads$": "tokio:worker_threads>0",
+    # mini-moka 0.10: build() asserts both expirations <= 1000 years (common/builder_utils.rs ensure_expirations_or_panic)
+    "re:^mini_moka::sync::builder::CacheBuilder::time_to_(idle|live)$": "moka:expiration<=1000y",
 }
 
 SCAN = r"^(<)?pgcat::(pool|mirrors|query_router|admin|auth_passthrough|sharding|plugins)::"
@@ -38,6 +40,7 @@ QUANT = {
     "ban_time": "ban_time", "error_count": "error_count", "worker_threads": "worker_threads",
     "autoreload": "autoreload", "shutdown_timeout": "shutdown_timeout", "schema": "intercept-schema",
     "prepared_statements_cache_size": "stmt_cache_size",
+    "db_activity_ttl": "cache_ttl", "table_mutation_cache_ms_ttl": "cache_ttl",
 }
 # fields that only hold other configuration (collections / sub-structs); their leaves are what matters
 CONTAINERS = {"pools", "general", "users", "user", "settings", "address", "plugins", "queries", "intercept", "config", "shards_map", "path", "database", "host", "username",
@@ -73,6 +76,7 @@ NEEDS = {
     "autoreload": ["autoreload>0"],
     "shutdown_timeout": ["shutdown_timeout>0"],
     "intercept-schema": ["intercept-schema-rows-complete"],
+    "cache_ttl": ["cache-ttl-bounded:db_activity_ttl", "cache-ttl-bounded:table_mutation_cache_ms_ttl"],
 }
 
 
@@ -139,6 +143,10 @@ def badconfig_returns(F, fn):
                                 consts.add(c.get("sint", c.get("int")))
             out.append({"block": blk, "fields": fields, "callees": callees, "consts": consts, "span": st["span"]})
     return out
+
+
+def fields_of_op(b, op):
+    return {p[1:] for o in origins(b, op, taint=True) if o.kind in ("place", "param") for p in o.proj if isinstance(p, str) and p.startswith(".") and not p[1:].isdigit()}
 
 
 def has_validator(rets, fields=(), callee_pats=(), consts=()):
@@ -245,6 +253,52 @@ def run(ctx):
     vcheck("autoreload>0", CFG_VALIDATE, "general.autoreload must not be 0 (it is the period of a tokio interval, which asserts period > 0)", fields=["general", "autoreload"], consts=[0])
     vcheck("shutdown_timeout>0", CFG_VALIDATE, "general.shutdown_timeout must not be 0 (period of the interval in the SIGINT arm's timer task)", fields=["general", "shutdown_timeout"], consts=[0])
     vcheck("intercept-schema-rows-complete", PLUGINS_VALIDATE, "every schema entry of an intercept rule has a name and a type (Intercept::run indexes row[0] and row[1])", fields=["schema"])
+    # the two cache expirations have an upper bound as well: mini-moka's builder asserts <= 1000 years, and the cache is built in a process-wide OnceLock at the
+    # first routed statement - a panic there leaves the cell empty, so every later statement of every client panics again (D80)
+    MOKA_MAX_S = 1000 * 365 * 24 * 3600
+    for fld, unit in (("db_activity_ttl", 1), ("table_mutation_cache_ms_ttl", 1000)):
+        found, why = None, "no `return Err(BadConfig)` of Pool::validate hangs on an ordering comparison of it"
+        for r in rets.get(POOL_VALIDATE) or []:
+            if fld not in r["fields"] or pvb_ is None:
+                continue
+            for sb, _t in pvb_.direct_control_deps(r["block"]):
+                for o in origins(pvb_, pvb_.blocks[sb]["term"]["op"]):
+                    if o.kind == "bin" and o.what in ("Gt", "Ge", "Lt", "Le"):
+                        sides = [o.extra["a"], o.extra["b"]]
+                        if any(fld in fields_of_op(pvb_, x) for x in sides):
+                            lim = [const_int(x) for x in sides if const_int(x) is not None]
+                            if lim and lim[0] > MOKA_MAX_S * unit:
+                                why = "its bound %d is above what the cache builder accepts (%d)" % (lim[0], MOKA_MAX_S * unit)
+                            else:
+                                found = r
+        V["cache-ttl-bounded:" + fld] = found is not None
+        rv.check(found is not None, "validator:cache-ttl-bounded:" + fld, "%s has an upper bound (the cache builder asserts an expiration of at most 1000 years) (%s)" % (fld, found and found["span"]),
+                 "MISSING validator: %s has no upper bound (%s) - a value beyond 1000 years passes validate(), the first routed statement panics inside the OnceLock initialiser of the activity cache and, "
+                 "the cell staying empty, so does every later statement of every client" % (fld, why))
+    # the database names Client::startup takes for the admin console (before it looks at the pools) cannot name a pool: such a pool is built and never reached,
+    # its users are held against the admin credentials (D81). The names are read from startup itself: the literals the value stored in Client.admin is computed from
+    st_ = F.body("pgcat::client::Client::startup::{closure#0}")
+    admin_names = set()
+    if st_ is not None:
+        for b__, blk__, stt in F.aggregates("pgcat::client::Client"):
+            if b__ is st_ and "admin" in stt["rv"]["fields"]:
+                for o in origins(st_, stt["rv"]["ops"][stt["rv"]["fields"].index("admin")], taint=True):
+                    if o.kind == "agg" and o.extra.get("agg") == "array":
+                        for x in o.extra["ops"]:
+                            admin_names |= {o2.what for o2 in origins(st_, x) if o2.kind == "const" and isinstance(o2.what, str)}
+                    elif o.kind == "call" and re.search(r"PartialEq.*::(eq|ne)$", o.call.name):
+                        admin_names |= {x for x in arg_strs(st_, o.call) if isinstance(x, str)}
+    if not admin_names:
+        rv.missing("the database names Client::startup takes for the admin console")
+    else:
+        r_ = None
+        for r in rets.get(CFG_VALIDATE) or []:
+            if "pools" in r["fields"] and admin_names <= {c_ for c_ in r["consts"] if isinstance(c_, str)}:
+                r_ = r
+        V["admin-names-reserved"] = r_ is not None
+        rv.check(r_ is not None, "validator:admin-names-reserved", "no pool can be named like the admin database (%s, the names Client::startup tests) (%s)" % (sorted(admin_names), r_ and r_["span"]),
+                 "MISSING validator: no `return Err(BadConfig)` of Config::validate depends on the pool names and %s - Client::startup takes these database names for the admin console before it looks at the pools: "
+                 "a pool of that name is accepted, built, and can never be addressed (its users are held against the admin credentials)" % sorted(admin_names))
     if rets.get(PLUGINS_VALIDATE) is not None:
         pv_callers = set(F.callers_of(PLUGINS_VALIDATE))
         rv.check({CFG_VALIDATE, POOL_VALIDATE} <= pv_callers, "wired:Plugins", "Plugins::validate is called for the general section (Config::validate) and for a pool's own (Pool::validate)", "Plugins::validate is called from %s only" % sorted(pv_callers))
